@@ -14,7 +14,7 @@ from harness.common import CLS, _obj, _unchanged
 
 ASSUMPTIONS = [
     "options.lsb0 is switched on inside each path and restored afterwards; the msb0 side of every comparison is the sequence-level oracle, not the library",
-    "the 8192-bit chunk loop of the lsb0 findall is exercised with structured content only (thorough tier)",
+    "the reverse chunk loop of the lsb0 findall is exercised with its increment shrunk to 4..8 bits through the guarded hook bitstring._verif_findall_chunk_bits (the production increment max(8192, 80*len(pattern)) itself is outside the bounds)",
 ]
 
 D = ['bitstring.bitstore:offset_slice_indices_lsb0', 'bitstring.bitstore:indices', 'bitstring.bitstore:BitStore.getindex_lsb0', 'bitstring.bitstore:BitStore.getslice_lsb0',
@@ -183,21 +183,25 @@ def h_insert(cname, n, m, op):
     return h
 
 
-def h_find(cname, n, m, which, aligned, fixed_start=False):
+def h_find(cname, n, m, which, aligned, fixed_start=False, chunk=None, fixed_end=False):
     def h(K):
         import bitstring
+        if chunk is not None:
+            bitstring._verif_findall_chunk_bits = chunk     # guarded hook in Bits._findall_lsb0 (MANIFEST.hooks)
         cls, x, pos, s = _obj(K, cname, n)
         pat = K.bits('pat', m)
-        a, b = (None if fixed_start else K.opt_int('start', -n - 1, n + 1)), K.opt_int('end', -n - 1, n + 1)
+        a, b = (None if fixed_start else K.opt_int('start', -n - 1, n + 1)), (None if fixed_end else K.opt_int('end', -n - 1, n + 1))
         pobj = mk(K, bitstring.Bits, pat)
         kw = {'bytealigned': True} if aligned else {}
         _lsb0()
         if which == 'findall':
-            cnt = K.opt_int('count', 0, 3)
+            cnt = None if fixed_end else K.opt_int('count', 0, 3)
             r = call(lambda: list(s.findall(pobj, a, b, cnt, **kw)))
         else:
             r = call(lambda: get_attr(s, which)(pobj, a, b, **kw))
         _lsb0(False)
+        if chunk is not None:
+            del bitstring._verif_findall_chunk_bits
         s0, e0, valid = O.norm_range(n, a, b)
         if m == 0 or not valid:
             return K.check(r.raised(ValueError), 'empty pattern / invalid range must raise ValueError', exc=r.excname)
@@ -422,6 +426,134 @@ def h_toggle(n):
     return h
 
 
+# ------------------------------------------------------------------ differential mirror (library msb0 run on reversed operands)
+def _mirror_ops(K, n, opname):
+    """returns (f(obj, operands...) , list of operand bitarrays, mirrored?) for one operation; arguments are created here (symbolic)"""
+    import bitstring
+    B = bitstring.Bits
+    lim = n + 1
+    if opname == 'cut':
+        bits, a, b, cnt = K.int('bits', 1, 3), K.opt_int('start', -lim, lim), K.opt_int('end', -lim, lim), K.opt_int('count', 0, 3)
+        return (lambda s: [raw(c) for c in s.cut(bits, a, b, cnt)]), [], True
+    if opname == 'replace':
+        a, b, cnt = K.opt_int('start', -lim, lim), K.opt_int('end', -lim, lim), K.opt_int('count', 0, 2)
+        return (lambda s, old, new: s.replace(old, new, a, b, cnt)), [K.bits('old', 2), K.bits('new', 1)], True
+    if opname == 'replace-whole':
+        cnt = K.opt_int('count', 0, 2)
+        return (lambda s, old, new: s.replace(old, new, None, None, cnt)), [K.bits('old', 2), K.bits('new', 3)], True
+    if opname == 'replace-aligned':
+        a, b = None, K.opt_int('end', -lim, lim)
+        return (lambda s, old, new: s.replace(old, new, a, b, None, True)), [K.bits('old', 2), K.bits('new', 3)], True
+    if opname == 'byteswap':
+        a, b, rep = K.opt_int('start', -lim, lim), K.opt_int('end', -lim, lim), K.bool('repeat')
+        fmt = K.choice('fmt', [None, 1, 2, [1, 2]])
+        return (lambda s: s.byteswap(fmt, a, b, rep)), [], True
+    if opname in ('insert', 'overwrite'):
+        p = K.opt_int('at', -lim, lim)
+        return (lambda s, y: get_attr(s, opname)(y, p)), [K.bits('y', 2)], True
+    if opname in ('append', 'prepend'):
+        return (lambda s, y: get_attr(s, opname)(y)), [K.bits('y', 2)], True
+    if opname == 'split':
+        a, b, cnt = K.opt_int('start', -lim, lim), K.opt_int('end', -lim, lim), K.opt_int('count', 0, 3)
+        return (lambda s, d: [raw(c) for c in s.split(d, a, b, cnt)]), [K.bits('delim', 2)], True
+    if opname == 'reverse':
+        a, b = K.opt_int('start', -lim, lim), K.opt_int('end', -lim, lim)
+        return (lambda s: s.reverse(a, b)), [], True
+    if opname == 'invert-pos':
+        p = K.int('p', -lim, lim)
+        return (lambda s: s.invert(p)), [], True
+    if opname == 'set-list':
+        p, q2, v = K.int('p', -lim, lim), K.int('q', -lim, lim), K.bool('v')
+        return (lambda s: s.set(v, [p, q2])), [], True
+    if opname == 'any-all':
+        p, v = K.int('p', -lim, lim), K.bool('v')
+        return (lambda s: (s.all(v, [p]), s.any(v, [p]))), [], True
+    if opname == 'count-find-in':
+        return (lambda s, y: (s.count(1), y in s)), [K.bits('y', 2)], True
+    # operations that do not take positions: identical in both modes (no mirroring at all)
+    if opname in ('ilshift', 'irshift'):
+        k = K.int('k', 0, n + 1)
+        return (lambda s: raw(s.__ilshift__(k) if opname == 'ilshift' else s.__irshift__(k))), [], False
+    if opname == 'imul':
+        k = K.int('k', 0, 2)
+        return (lambda s: raw(s.__imul__(k))), [], False
+    if opname in ('iand', 'ior', 'ixor'):
+        return (lambda s, y: raw(get_attr(s, '__' + opname + '__')(y))), [K.bits('y', n)], False
+    if opname == 'invert-all':
+        return (lambda s: s.invert()), [], False
+    if opname == 'set-all':
+        v = K.bool('v')
+        return (lambda s: s.set(v)), [], False
+    if opname == 'clear':
+        return (lambda s: s.clear()), [], False
+    if opname == 'not-and':
+        return (lambda s, y: [raw(~s) if n else None, raw(s & y), raw(s | y), raw(s ^ y)]), [K.bits('y', n)], False
+    if opname == 'add-mul':
+        return (lambda s, y: [raw(s + y), raw(y + s), raw(s * 2)]), [K.bits('y', 2)], False
+    raise ValueError(opname)
+
+
+MIRROR_MUT = ['replace', 'replace-whole', 'replace-aligned', 'byteswap', 'insert', 'overwrite', 'append', 'prepend', 'reverse', 'invert-pos', 'set-list', 'ilshift', 'irshift', 'imul', 'iand', 'ior', 'ixor',
+              'invert-all', 'set-all', 'clear']
+# split is deliberately absent: it is not in the property's list and tests/test_bitarray.py::TestLsb0Setting::test_split pins a hybrid behaviour
+# (delimiters located from the most significant end, pieces cut with lsb0 slices) that is not the mirror; see DESIGN.md 8.6
+MIRROR_ANY = ['cut', 'any-all', 'count-find-in', 'not-and', 'add-mul']
+
+
+def _mirror_val(v, mirrored):
+    tn = type(v).__name__
+    if tn in ('bitarray', 'frozenbitarray'):
+        return rv(v) if mirrored else v
+    if isinstance(v, (list, tuple)):
+        return [_mirror_val(u, mirrored) for u in v]
+    return v
+
+
+def _same_val(u, v):
+    tu, tv = type(u).__name__, type(v).__name__
+    if tu in ('bitarray', 'frozenbitarray') or tv in ('bitarray', 'frozenbitarray'):
+        return tu == tv and same(u, v)
+    if isinstance(u, (list, tuple)):
+        if not isinstance(v, (list, tuple)) or len(u) != len(v):
+            return False
+        ok = True
+        for p, q in zip(u, v):
+            ok = ok and _same_val(p, q)
+        return ok
+    return u == v
+
+
+def h_mirror(cname, n, opname):
+    """the property as literally stated: the lsb0 operation == reverse(msb0 operation of the library on the reversed operands, same position
+    arguments); position-free operations must be identical in both modes.  (The msb0 side is itself checked against the sequence oracle by C01/C03/C07/C16.)"""
+    def h(K):
+        import bitstring
+        cls = classes()[cname]
+        x = K.bits('x', n)
+        pos = K.int('pos', 0, n) if is_stream(cls) else None
+        f, operands, mirrored = _mirror_ops(K, n, opname)
+        s1 = mk(K, cls, x, pos)
+        s2 = mk(K, cls, rv(x) if mirrored else x, pos)
+        ops1 = [mk(K, bitstring.Bits, y) for y in operands]
+        ops2 = [mk(K, bitstring.Bits, rv(y) if mirrored else y) for y in operands]
+        _lsb0()
+        r1 = call(lambda: f(s1, *ops1))
+        _lsb0(False)
+        r2 = call(lambda: f(s2, *ops2))
+        if r1.ok != r2.ok or ((not r1.ok) and type(r1.exc) is not type(r2.exc)):
+            return K.fail('the operation raises in one mode and not (or differently) in the other', op=opname, lsb0_exc=r1.excname, msb0_exc=r2.excname)
+        exp_content = rv(raw(s2)) if mirrored else raw(s2)
+        if not K.check(same(raw(s1), exp_content), 'content after the lsb0 operation is not the mirror of the msb0 operation on the reversed operands' if mirrored else
+                       'a position-free operation gives different content in lsb0 and msb0 mode', op=opname, got=raw(s1), expected=exp_content):
+            return False
+        if r1.ok and not K.check(_same_val(r1.value, _mirror_val(r2.value, mirrored)), 'return value of the lsb0 operation is not the mirror of the msb0 one', op=opname, got=r1.value, msb0_on_reversed=r2.value):
+            return False
+        if pos is not None:
+            return K.check(s1._pos == s2._pos, 'stream position after the operation differs between the lsb0 run and the mirrored msb0 run', op=opname, lsb0_pos=s1._pos, msb0_pos=s2._pos)
+        return True
+    return h
+
+
 def conditions(tier):
     q = tier == 'quick'
     conds = []
@@ -452,6 +584,13 @@ def conditions(tier):
                     add(f'C12.{which}-aligned[{c},n={n},m={m},start=None]', h_find(c, n, m, which, True, True), f'all contents ({n}-bit data, {m}-bit pattern) x end in [-{n + 1},{n + 1}] or None, bytealigned=True', n=n, m=m)
                     continue
                 add(f'C12.{which}-aligned[{c},n={n},m={m}]', h_find(c, n, m, which, True), f'all contents ({n}-bit data, {m}-bit pattern) x windows, bytealigned=True', n=n, m=m)
+    # the reverse chunk loop of Bits._findall_lsb0 (8192-bit increments in production) with the increment shrunk by the hook
+    for c in (['Bits'] if q else imm + mut):
+        for (n, m, ch) in ([(12, 1, 4), (12, 2, 5)] if q else [(12, 1, 4), (12, 2, 5), (13, 3, 4), (17, 2, 8), (16, 1, 8)]):
+            add(f'C12.findall-chunked[{c},n={n},m={m},chunk={ch}]', h_find(c, n, m, 'findall', False, True, chunk=ch), f'all contents ({n}-bit data, {m}-bit pattern) x end x count; chunk increment {ch} bits', n=n, m=m)
+        for (n, m, ch) in ([(16, 1, 8)] if q else [(16, 1, 8), (17, 1, 8), (24, 8, 8), (20, 2, 5)]):
+            for which in ('find', 'findall'):
+                add(f'C12.{which}-aligned-chunked[{c},n={n},m={m},chunk={ch}]', h_find(c, n, m, which, True, True, chunk=ch, fixed_end=True), f'all contents ({n}-bit data, {m}-bit pattern), whole range, no count, bytealigned=True; chunk increment {ch} bits', n=n, m=m)
     for c in mut:
         for n in ([0, 3] if q else [0, 1, 3, 5]):
             for op in ('set', 'invert', 'setitem', 'delitem'):
@@ -467,6 +606,13 @@ def conditions(tier):
         for n in ([5] if q else [0, 3, 5, 8]):
             for op in ('reverse', 'rol', 'ror'):
                 add(f'C12.{op}-ranged[{c},n={n}]', h_ranged(c, n, op), f'all {n}-bit contents x start,end in [-{n + 1},{n + 1}] or None' + (' x bits' if op != 'reverse' else ''), n=n)
+    for c in CLS:
+        for n in ([9] if q else [0, 5, 9, 17]):
+            for op in MIRROR_ANY + (MIRROR_MUT if c in ('BitArray', 'BitStream') else []):
+                if op in ('byteswap', 'replace-aligned') and n < 9:
+                    continue
+                nn = {'byteswap': 17, 'replace-aligned': 10, 'replace': 4, 'replace-whole': 7, 'cut': 6}.get(op, n) if q else n
+                add(f'C12.mirror-{op}[{c},n={nn}]', h_mirror(c, nn, op), f'all {nn}-bit contents, operands and position arguments in [-{nn + 1},{nn + 1}] or None; lsb0 run vs library msb0 run on the reversed operands', n=nn, op=op)
     for c in (['ConstBitStream'] if q else ['ConstBitStream', 'BitStream']):
         for tok, L_ in (('uint:3', 3), ('bits:4', 4), ('bin:2', 2)):
             add(f'C12.read[{c},{tok},n=7]', h_read(c, 7, tok, L_), 'all 7-bit contents x all positions', tok=tok)
